@@ -671,7 +671,11 @@ def gen_bodies(src, group='enc'):
     Groups: enc = the to_ical encoders (Bodies.lean), dec = the from_ical decoders (BodiesDec.lean),
     parser = parser.dquote / q_join / q_split (BodiesParser.lean), line = escape_string / unescape_string /
     Contentline.raw_value / the scanning loop of Contentline.parts (BodiesLine.lean), fold = foldline
-    (BodiesFold.lean), text = split_on_unescaped_comma (BodiesText.lean); one generated file each, so that a failure breaks the tie
+    (BodiesFold.lean), text = split_on_unescaped_comma (BodiesText.lean), alarm = AlarmTime / Alarms of alarms.py and
+    tools.is_date / is_datetime (BodiesAlarm.lean), walk = Component._walk / walk (BodiesWalk.lean), ser =
+    Component.property_items (BodiesSer.lean), cdict = the delegating methods of CaselessDict (BodiesCDict.lean), se = Event.end / Todo.end and
+    tools.is_date on the values of Model/StartEnd (BodiesSE.lean);
+    one generated file each, so that a failure breaks the tie
     only of the properties whose Lean modules import that file"""
     import py2lean
     try:
@@ -704,11 +708,33 @@ def gen_bodies_text(src):
     return gen_bodies(src, 'text')
 
 
+def gen_bodies_alarm(src):
+    return gen_bodies(src, 'alarm')
+
+
+def gen_bodies_walk(src):
+    return gen_bodies(src, 'walk')
+
+
+def gen_bodies_ser(src):
+    return gen_bodies(src, 'ser')
+
+
+def gen_bodies_cdict(src):
+    return gen_bodies(src, 'cdict')
+
+
+def gen_bodies_se(src):
+    return gen_bodies(src, 'se')
+
+
 # ---------------------------------------------------------------- driver
 
 GENERATORS = [('Parser.lean', gen_parser), ('Cal.lean', gen_cal), ('Prop.lean', gen_prop), (None, gen_misc),
               ('Bodies.lean', gen_bodies), ('BodiesDec.lean', gen_bodies_dec), ('BodiesParser.lean', gen_bodies_parser),
-              ('BodiesLine.lean', gen_bodies_line), ('BodiesFold.lean', gen_bodies_fold), ('BodiesText.lean', gen_bodies_text)]
+              ('BodiesLine.lean', gen_bodies_line), ('BodiesFold.lean', gen_bodies_fold), ('BodiesText.lean', gen_bodies_text),
+              ('BodiesAlarm.lean', gen_bodies_alarm), ('BodiesWalk.lean', gen_bodies_walk), ('BodiesSer.lean', gen_bodies_ser),
+              ('BodiesCDict.lean', gen_bodies_cdict), ('BodiesSE.lean', gen_bodies_se)]
 
 
 def write_if_changed(path, content):
